@@ -17,7 +17,7 @@ func init() {
 		Technique: "type-level JSON losslessness walker over the enumerated checkpointed types + dependence-slice field symmetry of the custom marshalers + codec tag/decode audit",
 		Explanation: "Decides: (1) the set of checkpointed types is enumerated from the source — every message type listed in a DefineProtocol/RegisterMsg call, every RegisterEvent argument, and every Spec/State type argument of modeling.Component / EventDrivenComponent in library code — and each is walked field by field with encoding/json's rules (unexported fields, json:\"-\", omitempty on slices/maps, interface-typed values, non-string/integer map keys, channels/functions/complex, duplicate JSON names, one-sided custom marshalers); " +
 			"(2) every concrete library type implementing messaging.Msg or timing.Event is registered with the codec; (3) the three custom marshalers (Buffer, Pipeline, lruset.Set) carry every field of their type into the JSON record and back into the same field; " +
-			"(4) the codec derives the type tag with one function on the register and encode paths, decodes each element into a fresh value, and JSON decoding on load paths never targets live state.",
+			"(4) the codec derives the type tag with one function on the register and encode paths, decodes each element into a fresh value, and JSON decoding on load paths never targets live state. (register-collision) the codec's Register looks at an existing binding of a wire tag before binding it.",
 		NotDecided:  "equality for values the type system cannot see: NaN fails loudly; invalid UTF-8 in strings is rewritten by encoding/json; pointer aliasing inside one value is not preserved.",
 		Assumptions: []string{"encoding/json's documented field-promotion and tag rules", "integers and floats round-trip exactly through encoding/json (strconv shortest representation)"},
 	}, runC08)
@@ -204,6 +204,7 @@ func marshalerSymmetryRule(c *Ctx, rule string, only func(marshalerSpec) bool) {
 }
 
 func runC08(c *Ctx) {
+	registerCollisionRule(c, "register-collision")
 	p := c.P
 	msgs, events, sites := p.registeredTypes()
 	specs, states := p.componentTypeArgs()
